@@ -402,3 +402,40 @@ package ice
 //@
 //@ func persistMergedRest
 //@   frames[C03] !newDocNumsIn[*], !segments[*]
+//@
+//@ // ---------------------------------------------------------------------------
+//@ // C06: stored fields
+//@ uninterpreted unz(a bytes, o int, n int) bytes
+//@ uninterpreted unzlen(a bytes, o int, n int) int
+//@ axiom unzlen-nonneg (a bytes, o int, n int) : unzlen(a, o, n) >= 0 pattern unzlen(a, o, n)
+//@
+//@ // zstd wrappers: DecodeAll appends the decoded frame to dst[:0]; the result's capacity
+//@ // beyond its length is unspecified (klauspost allocates only what it needs)
+//@ func ZSTDDecompress
+//@   trusted
+//@   modifies allocTop, dst[*], decoder
+//@   ensures result1 == nil ==> len(result0) == unzlen(contents(src), off(src), len(src)) && len(result0) <= cap(result0)
+//@   ensures result1 == nil ==> seqeq(contents(result0), off(result0), unz(contents(src), off(src), len(src)), 0, len(result0))
+//@   ensures result1 == nil ==> (arr(result0) == arr(dst) && off(result0) == off(dst)) || fresh(result0)
+//@   ensures result1 != nil ==> len(result0) == 0
+//@
+//@ func ZSTDCompress
+//@   trusted
+//@   modifies allocTop, dst[*], encoder
+//@   ensures result1 == nil && len(result0) <= cap(result0)
+//@   ensures unzlen(contents(result0), off(result0), len(result0)) == len(src) && seqeq(unz(contents(result0), off(result0), len(result0)), 0, contents(src), off(src), len(src))
+//@   ensures (arr(result0) == arr(dst) && off(result0) == off(dst)) || fresh(result0)
+//@
+//@ func (*Segment).getDocStoredOffsetsOnly
+//@   safety[C06] nil slice idx
+//@   requires[C06] s != nil
+//@   ensures[C06] err == nil ==> indexOffset == s.footer.storedIndexOffset + 8 * docNum
+//@
+//@ // valid file: the stored index has one 8-byte entry per document, the block table has
+//@ // numDocs/128 + 2 entries, and every record starts with two non-empty uvarints followed
+//@ // by meta and data inside its block
+//@ func (*Segment).getDocStoredOffsets
+//@   safety[C06] nil slice idx
+//@   requires[C06] s != nil && docNum < s.footer.numDocs
+//@   assume docNum / 128 + 1 < len(s.storedFieldChunkOffsets)
+//@   at call:ZSTDDecompress#0 assume result1 == nil ==> storedOffset + 2 <= len(result0)
